@@ -112,7 +112,7 @@ def showState (s : State) : String :=
 def runShow (s : State) : List Stmt → List String
   | [] => []
   | st :: sts =>
-    let r := step false s st
+    let r := step true s st   -- the code as it is now (/repo 5758ed9)
     (showOutcome r.2 ++ showState r.1) :: runShow r.1 sts
 
 def handle (op : String) (arg : Sexp) : String :=
